@@ -57,6 +57,7 @@ func (c *simConn) poke() {
 }
 
 func (c *simConn) Read(b []byte) (int, error) {
+	c.w.onReadCall(c)
 	for {
 		c.mu.Lock()
 		if c.readErr != nil {
